@@ -266,6 +266,21 @@ def run_seq(ctx, path: Path, ops):
                     if got != ref[kk]:
                         viol = ("C02:collection-get-differs-from-put", f"after `{short(op)}` c[{kk[:12]!r}] != value put")
                         break
+                if not viol and len(done) % 3 == 0:
+                    # the other public ways to enumerate a collection tell the same story as keys() + c[key]
+                    for how, fn in (("items()", lambda: dict(col.items())), ("values()", lambda: sorted(col.values())),
+                                    ("iteration", lambda: sorted(col)), ("len()", lambda: len(col)),
+                                    ("`in`", lambda: all(kk in col for kk in ref))):
+                        want = {"items()": ref, "values()": sorted(ref.values()), "iteration": sorted(ref), "len()": len(ref), "`in`": True}[how]
+                        try:
+                            got = fn()
+                        except Exception as e:
+                            got = f"{type(e).__name__}: {e}"
+                        if got != want:
+                            viol = ("C02:listed-key-not-readable" if how in ("items()", "values()") else "C02:collection-listing-differs-from-puts",
+                                    f"after `{short(op)}` (bufsize={col._backend._bufsize}) {how} of the collection gives {str(got)[:60]!r}, "
+                                    f"not what keys() + c[key] give ({len(ref)} pairs)")
+                            break
     finally:
         real.abort_all()
     data = path.read_bytes() if path.exists() else None
